@@ -29,7 +29,11 @@ CLAIM = dict(
     "equals applying the stage balances one after the other; the least-squares objective is >= 0 and = 0 at the true map when "
     "the destinations are an exact image (exact maps are global minimisers). For the unfixed accumulation (A_new·A_prev, "
     "translation untouched in non-affine stages) the negation is proved by witnesses and equality is proved for commuting "
-    "stages with zero translation. Tied exactly to the code by stubbing the stage fits with dyadic matrices. "
+    "stages with zero translation. Round 2: reshape commutes with the row-vector action (apply_flatten_commute, apply_chunk_commute: "
+    "4x6x3 <-> 24x3; apply_rows_commute for swatches[-1] / swatches[:-1]) and the ColorCorrection.correct_array pipeline is the "
+    "composition 'colour balance after white balance' on every pixel (pipeline_is_composition, pipeline_explicit x.D.A + b, "
+    "pipeline_colour_rows_exact). Tied exactly to the code by stubbing the stage fits with dyadic matrices, both on "
+    "AdaptiveBalance and through the real ColorCorrection.correct_array on a synthetic dyadic checker. "
     "Only observed (not proved): that scipy's Powell search reaches the minimiser within tolerance (1e-4 on swatches in [0,1]) "
     "and never returns a larger objective than it started from - sampled over random well-conditioned swatch sets, ground "
     "truths near the identity, all balance classes and all ordered pairs / triples of staged modes.",
@@ -359,6 +363,117 @@ def check_own_targets_case(d, case, cov=None):
     return bad
 
 
+# ---------------------------------------------------------------------------- round 2: ColorCorrection pipeline and array layouts
+
+
+def dyadic_checker(rng, scale):
+    sw = np.array([[[rng.randint(1, 7) / 8.0 for _ in range(3)] for _ in range(6)] for _ in range(4)])
+    return sw, np.kron(sw, np.ones((scale, scale, 1)))
+
+
+def corr_pipeline(ctx, d):
+    """ColorCorrection.correct_array (balancing='darsia') with the two stage fits stubbed by dyadic matrices: the corrected
+    image must be exactly the model pipeline (white balance, then colour balance) applied to every pixel; the stage fits must
+    be handed the grey row / the white-balanced colour rows of the extracted swatches."""
+    from darsia.corrections.color.colorcorrection import CustomColorChecker
+
+    lines, impl = [], []
+    combos = [(wb, m) for wb in (True, False) for m in ("affine", "linear")]
+    for i in range(ctx.pick(8, 60)):
+        wb, mode = combos[i % 4]
+        s1 = ("diagonal",) + rand_stage(ctx.rng, "diagonal")
+        s2 = (mode,) + rand_stage(ctx.rng, mode)
+        scale = ctx.rng.choice([6, 8])
+        sw, img = dyadic_checker(ctx.rng, scale)
+        ident = ("diagonal", [[Fr(int(a == b)) for b in range(3)] for a in range(3)], [Fr(0)] * 3)
+        lines.append(f"pipeline {int(wb)} {stage_tokens(*(s1 if wb else ident))} {stage_tokens(*s2)} 4 6 "
+                     + " ".join(fmt(x) for x in sw.reshape(-1, 3).ravel()))
+
+        def run():
+            n0, n1 = img.shape[:2]
+            cc = d.ColorCorrection(config={"roi": [[0, 0], [n0 - 1, 0], [n0 - 1, n1 - 1], [0, n1 - 1]], "colorbalancing": mode,
+                                           "whitebalancing": wb, "balancing": "darsia"})
+            queue, log = ([s1] if wb else []) + [s2], []
+            with Stub(d, queue, log):
+                out = cc.correct_array(img.copy())
+            if queue or len(log) != (2 if wb else 1):
+                raise ValueError("number of stage fits")
+            A1 = np.array([[float(x) for x in r] for r in s1[1]]) if wb else np.eye(3)
+            if wb and not (log[0][0] == "diagonal" and log[0][2].shape == (6, 3) and np.allclose(log[0][2], sw[-1], atol=2e-2)):
+                raise ValueError("white-balance stage was not handed the grey row swatches[-1]")
+            last = log[-1]
+            if not (last[0] == mode and last[2].shape == (3, 6, 3) and np.allclose(last[2], sw[:-1] @ A1, atol=2e-2 * max(1.0, float(np.abs(A1).max())))):
+                raise ValueError("colour stage was not handed the white-balanced colour rows swatches[:-1]")
+            if out.dtype != np.float32 or out.shape != img.shape:
+                raise TypeError("dtype/shape")
+            # every pixel of a swatch block must carry the same corrected colour
+            blocks = out.reshape(4, scale, 6, scale, 3)
+            if not np.array_equal(blocks, np.broadcast_to(blocks[:, :1, :, :1, :], blocks.shape)):
+                raise ValueError("pixels of one block corrected differently")
+            return " ".join(fmt(x) for x in out[::scale, ::scale].reshape(-1, 3).ravel())
+
+        r = call(run)
+        if isinstance(r, Raised):
+            ctx.notes.append(f"pipeline case {i}: {r.exc!r}")
+        impl.append(repr(r) if isinstance(r, Raised) else r)
+    return ctx.correspond("ColorCorrection.correct_array pipeline (stubbed stage fits, exact)", lines, impl)
+
+
+def check_layout_case(d, case):
+    """reshape commutes with apply_balance: flat Nx3 vs 4x6x3 (and image-like HxWx3)"""
+    mode = case["mode"]
+    A, b = np.array(case["A"], float), np.array(case["b"], float)
+    sw = np.array(case["src"], float)
+    bal = call(getattr(d, CLS[mode]))
+    if isinstance(bal, Raised):
+        return [(f"C12:{CLS[mode]}():raises", f"{bal}")]
+    bal.balance_scaling = A
+    if mode == "affine":
+        bal.balance_translation = b
+    g = call(bal.apply_balance, sw)
+    f = call(bal.apply_balance, sw.reshape(-1, 3))
+    if isinstance(g, Raised) or isinstance(f, Raised):
+        return [(f"C12:{CLS[mode]}.apply_balance:raises(layout)", f"{g} {f}")]
+    bad = []
+    exp = sw.reshape(-1, 3) @ A + (b if mode == "affine" else 0.0)
+    tol = 0.0 if case.get("dyadic") else 1e-14
+    if g.shape != sw.shape or f.shape != (sw.size // 3, 3) or float(np.abs(g.reshape(-1, 3) - f).max()) > tol:
+        bad.append((f"C12:{CLS[mode]}.apply_balance:reshape-does-not-commute",
+                    f"apply_balance on shape {sw.shape} and on its flat Nx3 view differ by {float(np.abs(g.reshape(-1, 3) - f).max()):.3g}"))
+    if float(np.abs(f - exp).max()) > tol:
+        bad.append((f"C12:{CLS[mode]}.apply_balance:not-row-vector-action", f"apply_balance != x @ A (+ b): {float(np.abs(f - exp).max()):.3g}"))
+    return bad
+
+
+def check_pipeline_case(d, case):
+    """real fits: an image whose swatches are an exact linear image of the reference colours is corrected such that the colour
+    rows of the corrected checker reproduce the reference (optimiser + swatch-extraction tolerance 5e-3)"""
+    from darsia.corrections.color.colorcorrection import ColorCheckerAfter2014, CustomColorChecker
+
+    ref = ColorCheckerAfter2014().swatches_rgb
+    P = np.eye(3) + np.array(case["perturb"], float)
+    scale = case["scale"]
+    img = np.kron(ref @ P + np.array(case.get("offset", [0, 0, 0]), float), np.ones((scale, scale, 1)))
+    if img.min() < 0 or img.max() > 1:
+        return []
+    n0, n1 = img.shape[:2]
+
+    def run():
+        cc = d.ColorCorrection(config={"roi": [[0, 0], [n0 - 1, 0], [n0 - 1, n1 - 1], [0, n1 - 1]], "colorbalancing": case["mode"],
+                                       "whitebalancing": case["wb"], "balancing": "darsia"})
+        out = cc.correct_array(img.copy())
+        return CustomColorChecker(image=cc._restrict_to_roi(out)).swatches_rgb
+
+    got = call(run)
+    if isinstance(got, Raised):
+        return [("C12:ColorCorrection.correct_array:raises", f"{got}")]
+    err = float(np.abs(got[:-1] - ref[:-1]).max())
+    if err > 5e-3:
+        return [(f"C12:ColorCorrection:colour-rows-not-reproduced(wb={int(case['wb'])},{case['mode']})",
+                 f"exact {case['mode']} ground truth: corrected colour swatches differ from the reference by {err:.3g}")]
+    return []
+
+
 def report(ctx, bad, case):
     for sig, what in bad:
         ctx.fail(sig, what, {"case": case, "observed": what})
@@ -402,11 +517,47 @@ def oracle(ctx, d):
             case = dict(own_targets=True, modes=modes, src=src.tolist(), truths=truths)
             ctx.count(("own-targets", tuple(modes), rep))
             report(ctx, check_own_targets_case(d, case, ctx.cov), case)
+    # array layouts
+    for i in range(ctx.pick(12, 120)):
+        mode = MODES[i % 3]
+        dyadic = i % 2 == 0
+        if dyadic:
+            A, b = rand_stage(rng, mode)
+            A, b = [[float(x) for x in r] for r in A], [float(x) for x in b]
+            shape = [(4, 6, 3), (24, 3), (5, 7, 3)][(i // 2) % 3]
+            src = np.array([rng.randint(0, 8) / 8.0 for _ in range(int(np.prod(shape)))]).reshape(shape)
+        else:
+            A, b = rand_truth(rng, mode)
+            A, b = A.tolist(), b.tolist()
+            src = rand_swatches(rng, flat=bool(i % 4 == 1))
+        case = dict(layout=True, mode=mode, dyadic=dyadic, A=A, b=b, src=src.tolist())
+        ctx.count(("layout", mode, i))
+        report(ctx, check_layout_case(d, case), case)
+    # ColorCorrection pipeline with real fits
+    for i in range(ctx.pick(2, 8)):
+        from darsia.corrections.color.colorcorrection import ColorCheckerAfter2014
+
+        ref = ColorCheckerAfter2014().swatches_rgb
+        mode = ("affine", "linear")[(i // 2) % 2]
+        for _try in range(20):
+            perturb = [[rng.uniform(-0.04, 0.04) for _ in range(3)] for _ in range(3)]
+            # the image is ref @ P + q, i.e. the exact correction is affine with a clearly non-zero translation
+            offset = [rng.uniform(0.02, 0.05) * rng.choice([1, -1]) for _ in range(3)] if mode == "affine" else [0.0, 0.0, 0.0]
+            im = ref @ (np.eye(3) + np.array(perturb)) + np.array(offset)
+            if im.min() >= 0 and im.max() <= 1:
+                break
+        case = dict(pipeline=True, wb=bool(i % 2 == 0), mode=mode, scale=rng.choice([6, 8]), perturb=perturb, offset=offset)
+        ctx.count(("pipeline", case["wb"], case["mode"], i))
+        report(ctx, check_pipeline_case(d, case), case)
 
 
 def _dispatch(d, case):
     if case.get("own_targets"):
         return check_own_targets_case(d, case)
+    if case.get("layout"):
+        return check_layout_case(d, case)
+    if case.get("pipeline"):
+        return check_pipeline_case(d, case)
     return check_staged_case(d, case) if "modes" in case else check_fit_case(d, case)
 
 
@@ -418,7 +569,7 @@ def replay(data):
         print(json.dumps(data, indent=1)[:4000])
         return 0
     bad = _dispatch(d, case)
-    print("case:", json.dumps({k: v for k, v in case.items() if k != "src"}), "swatches:", np.array(case["src"]).shape)
+    print("case:", json.dumps({k: v for k, v in case.items() if k != "src"}), "swatches:", np.array(case.get("src", [])).shape)
     for sig, what in bad:
         print("FAILS:", sig, "--", what)
     if not bad:
@@ -438,6 +589,7 @@ def run(ctx):
     ctx.prove("C12")
     corr_composition(ctx, d)
     corr_apply_and_objective(ctx, d)
+    corr_pipeline(ctx, d)
     oracle(ctx, d)
     ctx.cov["explanation"] = CLAIM["text"]
     ctx.cov["rule"] = ("composition: every mode sequence of length 1-3 plus random sequences of length 2-4 with random dyadic stage "
